@@ -10,7 +10,13 @@ import DymVerif.Gen.Guards
                                         | rej grant <alias> | rej unpack
        T ::= <alias> <authAlias|-> <bad:0|1> <k> T1 … Tk
   path <i,j,…|-> <k> T1 … Tk         -> at <alias> depth <d> | none      (M-Ante `reach`)
+  xo <alias> <critURL|-> <ncURL|->   -> ok          (alias for a set of extension options; only the first critical one routes)
+  rtx <extAlias|-> <mode:d|c|r> <k> T1 … Tk
+                                     -> the `tx` observations | rej noteth | rej unknown-ext
+                                        (M-Ante `runAnte` over the regenerated route table; r = ReCheckTx)
   wrappers                           -> sorted Go types of the wrappers that execute packed messages
+  stored <G|P> <leaf>                -> <verdict of the submission> | <verdict of group.MsgExec or ->
+  rows                               -> number of Msg rows of the regenerated guard table (= routed custom-module message types)
   signer <module.Msg>                -> Go field path of the message's signer (regenerated table)
   own <obj> <actor>                  -> ok          (fixture: object `obj` is owned by actor)
   fix <what> [a<i>]                  -> ok          (fixture maintenance; `fix buy a<i>`: new buy order of actor i = object 5)
@@ -23,6 +29,7 @@ open DymVerif DymVerif.Ante DymVerif.Driver
 
 structure St where
   aliases : List (String × Nat) := []
+  exts : List (String × Option String) := []
   owners : Owners := []
 
 def tyId (goName : String) : Nat :=
@@ -85,6 +92,17 @@ def step (s : St) (f : List String) : St × String :=
     match parseMsgs s (nat! k) rest with
     | some (ms, []) => (s, showErr s (anteCheck Gen.Ante.config ms))
     | _ => (s, "bad-op")
+  | ["xo", a, crit, _] => ({ s with exts := (a, if crit = "-" then none else some crit) :: s.exts }, "ok")
+  | "rtx" :: ea :: mode :: k :: rest =>
+    match parseMsgs s (nat! k) rest with
+    | some (ms, []) =>
+      let ext : Option String := if ea = "-" then none else (s.exts.lookup ea).getD (some ("?" ++ ea))
+      match runAnte Gen.Ante.config Gen.Ante.routes (mode = "r") ext ms with
+      | none => (s, "ok")
+      | some (.ante e) => (s, showErr s (some e))
+      | some (.notEth _) => (s, "rej noteth")
+      | some .unknownExt => (s, "rej unknown-ext")
+    | _ => (s, "bad-op")
   | "path" :: ps :: k :: rest =>
     -- the node addressed by an index path (descending through the hub's real wrappers only)
     match parseMsgs s (nat! k) rest with
@@ -99,6 +117,13 @@ def step (s : St) (f : List String) : St × String :=
     let names := realWrappers.filterMap (fun w =>
       if w.2 = Acc.msgs then (Gen.Ante.typeNames.lookup w.1) else none)
     (s, ",".intercalate (names.mergeSort (fun a b => decide (a ≤ b))))
+  | ["stored", w, l] =>
+    -- a proposal (gov v1 / group) carrying one leaf, submitted through the ante; when it passes and is a
+    -- group proposal, the later `group.MsgExec` (alias Q: no packed messages) goes through the ante too
+    let sub := anteCheck Gen.Ante.config [.node (aliasId s w) [.node (aliasId s l) [] tyOther false] tyOther false]
+    let ex := if sub.isNone && w = "P" then showErr s (anteCheck Gen.Ante.config [.node (aliasId s "Q") [] tyOther false]) else "-"
+    (s, showErr s sub ++ " | " ++ ex)
+  | ["rows"] => (s, toString (Gen.Guards.entries.filter (·.isMsg)).length)
   | ["signer", m] => (s, (Gen.Guards.signers.lookup m).getD "?")
   | ["own", o, a] => ({ s with owners := setOwner s.owners (nat! o) (nat! (a.drop 1).toString) }, "ok")
   | ["fix", "buy", a] => ({ s with owners := setOwner s.owners 5 (nat! (a.drop 1).toString) }, "ok")
